@@ -271,6 +271,36 @@ for f in ('phase0', 'altair', 'bellatrix', 'capella', 'deneb'):
 for k in ('common:ProcessSlots', 'common:StateTransition', 'common:PostSlotTransition', 'altair:ProcessSyncAggregate', 'phase0:ProcessProposerSlashings', 'phase0:ProcessAttesterSlashings',
           'phase0:ProcessAttestations', 'altair:ProcessAttestations', 'deneb:ProcessAttestations', 'phase0:ProcessDeposits', 'capella:ProcessWithdrawals'):
     EXTRA.setdefault('eth2/beacon/' + k, []).append(_BALG)
+# process_withdrawals (C03: the payload carries exactly the expected withdrawals; C01: balances decreased once per withdrawal, sweep cursors advanced)
+PROPS['eth2/beacon/capella:ProcessWithdrawals'] = ' C03 C01'
+_WS = 'old(n_set_bal), st_vals(state), st_bals(state), st_slot(state) / spec.SLOTS_PER_EPOCH, spec.MAX_EFFECTIVE_BALANCE, st_next_wvi(state), reg_len(st_vals(state))'
+_WB = 'min(reg_len(st_vals(state)), spec.MAX_VALIDATORS_PER_WITHDRAWALS_SWEEP)'
+_WP = ('old(spec != nil && state != nil && executionPayload != nil && spec.SLOTS_PER_EPOCH != 0 && spec.MAX_WITHDRAWALS_PER_PAYLOAD > 0 && spec.MAX_WITHDRAWALS_PER_PAYLOAD < 4611686018427387904 && st_next_wi(state) < 4611686018427387904 && st_next_wvi(state) < 4611686018427387904 && spec.MAX_VALIDATORS_PER_WITHDRAWALS_SWEEP < 4611686018427387904)')
+_PL = 'pl_wds(executionPayload)'
+def _wfields(lst, p):
+    return ('%s[sw_count(%s, %s)].Index == st_next_wi(state) + sw_count(%s, %s) && %s[sw_count(%s, %s)].ValidatorIndex == sw_idx(st_next_wvi(state), reg_len(st_vals(state)), %s) && %s[sw_count(%s, %s)].Amount == sw_amount(%s, %s) && (forall k :: 0 <= k && k < 20 ==> %s[sw_count(%s, %s)].Address[k] == v_wcred(reg_val(st_vals(state), sw_idx(st_next_wvi(state), reg_len(st_vals(state)), %s)))[12 + k])'
+            % (lst, _WS, p, _WS, p, lst, _WS, p, p, lst, _WS, p, _WS, p, lst, _WS, p, p))
+EXTRA['eth2/beacon/capella:ProcessWithdrawals'] = [
+    '//@   use reg_len_nonneg, val_views_readable',
+    '//@   assigns ghost(n_set_bal), ghost(n_set_nwi), ghost(set_nwi), ghost(n_set_nwvi), ghost(set_nwvi)',
+    '//@   ensures c03_count: err == nil && ' + _WP + ' ==> len(%s) == min(spec.MAX_WITHDRAWALS_PER_PAYLOAD, sw_count(%s, %s))' % (_PL, _WS, _WB),
+    '//@   ensures c03_members_len: err == nil && ' + _WP + ' ==> (forall p :: {sw_count(%s, p)} 0 <= p && p < %s && sw_wd(%s, p) && sw_count(%s, p) < spec.MAX_WITHDRAWALS_PER_PAYLOAD ==> sw_count(%s, p) < len(%s))' % (_WS, _WB, _WS, _WS, _WS, _PL),
+    '//@   ensures c03_members_index: err == nil && ' + _WP + ' ==> (forall p :: {sw_count(%s, p)} 0 <= p && p < %s && sw_wd(%s, p) && sw_count(%s, p) < spec.MAX_WITHDRAWALS_PER_PAYLOAD ==> %s[sw_count(%s, p)].Index == st_next_wi(state) + sw_count(%s, p) && %s[sw_count(%s, p)].ValidatorIndex == sw_idx(st_next_wvi(state), reg_len(st_vals(state)), p))' % (_WS, _WB, _WS, _WS, _PL, _WS, _WS, _PL, _WS),
+    '//@   ensures c03_members_amount: err == nil && ' + _WP + ' ==> (forall p :: {sw_count(%s, p)} 0 <= p && p < %s && sw_wd(%s, p) && sw_count(%s, p) < spec.MAX_WITHDRAWALS_PER_PAYLOAD ==> %s[sw_count(%s, p)].Amount == sw_amount(%s, p))' % (_WS, _WB, _WS, _WS, _PL, _WS, _WS),
+    '//@   ensures c03_members_address: err == nil && ' + _WP + ' ==> (forall p :: {sw_count(%s, p)} 0 <= p && p < %s && sw_wd(%s, p) && sw_count(%s, p) < spec.MAX_WITHDRAWALS_PER_PAYLOAD ==> (forall k :: 0 <= k && k < 20 ==> %s[sw_count(%s, p)].Address[k] == v_wcred(reg_val(st_vals(state), sw_idx(st_next_wvi(state), reg_len(st_vals(state)), p)))[12 + k]))' % (_WS, _WB, _WS, _WS, _PL, _WS),
+    '//@   ensures c01_balances: err == nil && ' + _WP + ' ==> n_set_bal == old(n_set_bal) + len(%s)' % _PL,
+    '//@   ensures c01_next_index: err == nil && ' + _WP + ' ==> n_set_nwi == old(n_set_nwi) + ite(len(%s) > 0, 1, 0) && (len(%s) > 0 ==> set_nwi == st_next_wi(state) + len(%s))' % (_PL, _PL, _PL),
+    '//@   ensures c01_next_validator_once: err == nil && ' + _WP + ' ==> !reg_len_err(st_vals(state)) && n_set_nwvi == old(n_set_nwvi) + 1',
+    '//@   ensures c01_next_validator_full: err == nil && ' + _WP + ' && len(%s) == spec.MAX_WITHDRAWALS_PER_PAYLOAD ==> set_nwvi == (%s[len(%s) - 1].ValidatorIndex + 1) %% reg_len(st_vals(state))' % (_PL, _PL, _PL),
+    '//@   ensures c01_next_validator_sweep: err == nil && ' + _WP + ' && len(%s) != spec.MAX_WITHDRAWALS_PER_PAYLOAD ==> set_nwvi == (st_next_wvi(state) + spec.MAX_VALIDATORS_PER_WITHDRAWALS_SWEEP) %% reg_len(st_vals(state))' % _PL,
+    '//@   loop 1',
+    '//@     invariant 0 <= w && w <= len(expectedWithdrawals) && len(expectedWithdrawals) == len(withdrawals) && eqseq(withdrawals, %s) && bals == st_bals(state) && n_set_bal == old(n_set_bal) + w && n_set_nwi == old(n_set_nwi) && n_set_nwvi == old(n_set_nwvi)' % _PL,
+    '//@     invariant forall k :: {%s[k]} {expectedWithdrawals[k]} 0 <= k && k < w ==> %s[k].Index == expectedWithdrawals[k].Index && %s[k].ValidatorIndex == expectedWithdrawals[k].ValidatorIndex && %s[k].Amount == expectedWithdrawals[k].Amount && (forall b :: 0 <= b && b < 20 ==> %s[k].Address[b] == expectedWithdrawals[k].Address[b])' % (_PL, _PL, _PL, _PL, _PL)]
+EXTRA['eth2/beacon/capella:ProcessWithdrawals'] = [l.replace('%s', '@S@') if False else l for l in EXTRA['eth2/beacon/capella:ProcessWithdrawals']]
+for f in ('capella', 'deneb'):
+    EXTRA.setdefault('eth2/beacon/%s:BeaconStateView.ProcessBlock' % f, []).append('//@   assigns ghost(n_set_nwi), ghost(set_nwi), ghost(n_set_nwvi), ghost(set_nwvi)')
+for k in ('eth2/beacon/common:PostSlotTransition', 'eth2/beacon/common:StateTransition'):
+    EXTRA.setdefault(k, []).append('//@   assigns ghost(n_set_nwi), ghost(set_nwi), ghost(n_set_nwvi), ghost(set_nwvi)')
 # end-of-epoch resets (C02): when they fire and with which epoch
 for n in ('ProcessEth1DataReset', 'ProcessSlashingsReset', 'ProcessRandaoMixesReset', 'ProcessHistoricalRootsUpdate'):
     PROPS['eth2/beacon/phase0:' + n] = ' C02'
